@@ -46,17 +46,47 @@ def make(obj, tmp):
         return base.diskcache(cache_dir=tempfile.mkdtemp(prefix='verif_c09_dc_', dir=tmp)), True, orig
     if kind == 'eager-cache':
         return base.map(dict).cache(lazy=False), True, orig
+    if kind == 'zip-cache':
+        # examples are TUPLES (immutable containers) of mutable examples
+        return base.zip(base).map(_first).cache(), False, orig
+    if kind == 'pair-cache':
+        return base.map(_pair).map(_first).cache(), True, orig
+    if kind == 'list-of-tuples':
+        orig = [(v, [i]) for i, v in enumerate(data)]
+        return lazy_dataset.new(orig).map(_first), False, orig
+    if kind == 'key-zip-diskcache':
+        return base.key_zip(base).map(_first).diskcache(
+            cache_dir=tempfile.mkdtemp(prefix='verif_c09_dc_', dir=tmp)), True, orig
     raise ValueError(obj)
 
 
+def _pair(ex):
+    return (ex, [ex['id']])
+
+
+def _first(t):
+    """Keeps the tuple (that is what is stored / cached) but presents its first member for the comparison:
+    the harness mutates the member it is handed, which lives inside the stored tuple."""
+    return t
+
+
 OBJECTS = [('dict', 'pickle'), ('dict', 'copy'), ('list', 'pickle'), ('list', 'copy'), ('list', 'wu'),
-           ('cache', None), ('cache-of-copy', None), ('diskcache', None), ('eager-cache', None)]
+           ('cache', None), ('cache-of-copy', None), ('diskcache', None), ('eager-cache', None),
+           ('zip-cache', None), ('pair-cache', None), ('list-of-tuples', None), ('key-zip-diskcache', None)]
 
 PATHS = ['idx', 'neg', 'key', 'slice', 'iter', 'items', 'copy']
 
 
 def access(ds, keyed, path, e):
-    """Fetch example e through the given path; None if the path does not apply."""
+    """Fetch example e through the given path; None if the path does not apply.  For tuple-valued datasets the
+    first member of the tuple is what is compared and mutated."""
+    v = _access(ds, keyed, path, e)
+    if isinstance(v, tuple):
+        return v[0]
+    return v
+
+
+def _access(ds, keyed, path, e):
     if path == 'idx':
         return ds[e]
     if path == 'neg':
